@@ -2,7 +2,9 @@
 from .pdb import strip, walk, loc, ancestors
 from .terms import Ctx, num, show, lin_add, lin_sub
 from .common import (P, F, LEN, effects, callee_path, call_args, in_macro, forwards_to, is_zero_term, OP_OF_TRAIT, _reaching_values)
-from .guards import for_range, facts, cond_atoms, norm_cmp
+from .guards import facts, cond_atoms, norm_cmp
+from .guards import for_range as raw_for_range
+from .common import for_range_total as for_range
 
 LEVEL = "other"
 PT = "polynomial::Polynomial<T>"
@@ -238,7 +240,7 @@ def run(rep, pdb, tier):
         ok = len(rets) == 1 and ctx.term(rets[0]["e"]) == ("bool", False)
         if ok:
             lp = [a for a in ancestors(rets[0]) if a.get("k") == "For"]
-            r = for_range(ctx, lp[0]) if len(lp) == 1 else None
+            r = raw_for_range(ctx, lp[0]) if len(lp) == 1 else None
             fs = facts(ctx, rets[0])
             nz = any(f[0] == "cmp" and f[1] == "!=" and ({f[2], f[3]} == {("idx", CO0, r[0]), ("call", "traits::Zero::zero")}) for f in fs) if r else False
             tail = fn["body"].get("expr")
